@@ -227,7 +227,7 @@ func (e *Engine) findIndicesDFA(haystack []byte) (int, int, bool) { //nolint:cyc
 	// Longest (POSIX) mode: DFA uses leftmost-first (break-at-match), which is
 	// incompatible with leftmost-longest semantics. Fall back to PikeVM.
 	if e.longest {
-		return e.pikevm.Search(haystack)
+		return e.pikevmSearch(haystack)
 	}
 
 	// Literal fast path — complete prefilter returns match directly
@@ -241,7 +241,7 @@ func (e *Engine) findIndicesDFA(haystack []byte) (int, int, bool) { //nolint:cyc
 		if literalLen > 0 {
 			return pos, pos + literalLen, true
 		}
-		return e.pikevm.Search(haystack)
+		return e.pikevmSearch(haystack)
 	}
 
 	// Prefilter skip-ahead for DFA — safe even with incomplete prefilter.
@@ -255,7 +255,7 @@ func (e *Engine) findIndicesDFA(haystack []byte) (int, int, bool) { //nolint:cyc
 		if e.reverseDFA != nil {
 			return e.findIndicesBidirectionalDFA(haystack, pos)
 		}
-		return e.pikevm.SearchAt(haystack, pos)
+		return e.pikevmSearchAt(haystack, pos)
 	}
 
 	// Prefilter-accelerated search: find candidate, verify with anchored DFA.
@@ -318,7 +318,7 @@ func (e *Engine) findIndicesDFA(haystack []byte) (int, int, bool) { //nolint:cyc
 			return -1, -1, false
 		}
 		atomic.AddUint64(&e.stats.PrefilterHits, 1)
-		return e.pikevm.SearchAt(haystack, pos)
+		return e.pikevmSearchAt(haystack, pos)
 	}
 
 	// No prefilter: bidirectional DFA or DFA + PikeVM fallback.
@@ -333,7 +333,7 @@ func (e *Engine) findIndicesDFA(haystack []byte) (int, int, bool) { //nolint:cyc
 	}
 
 	// DFA confirmed a match exists - use PikeVM for exact bounds
-	return e.pikevm.Search(haystack)
+	return e.pikevmSearch(haystack)
 }
 
 // findIndicesDFAAt searches using DFA starting at position - zero alloc.
@@ -342,7 +342,7 @@ func (e *Engine) findIndicesDFAAt(haystack []byte, at int) (int, int, bool) {
 
 	// Longest (POSIX) mode: DFA uses leftmost-first, fall back to PikeVM.
 	if e.longest {
-		return e.pikevm.SearchAt(haystack, at)
+		return e.pikevmSearchAt(haystack, at)
 	}
 
 	// Prefilter skip-ahead — safe for all prefilters, DFA verifies.
@@ -356,7 +356,7 @@ func (e *Engine) findIndicesDFAAt(haystack []byte, at int) (int, int, bool) {
 		if e.reverseDFA != nil {
 			return e.findIndicesBidirectionalDFA(haystack, pos)
 		}
-		return e.pikevm.SearchAt(haystack, pos)
+		return e.pikevmSearchAt(haystack, pos)
 	}
 
 	if e.reverseDFA != nil {
@@ -370,7 +370,7 @@ func (e *Engine) findIndicesDFAAt(haystack []byte, at int) (int, int, bool) {
 	}
 
 	// DFA confirmed a match exists - use PikeVM for exact bounds
-	return e.pikevm.SearchAt(haystack, at)
+	return e.pikevmSearchAt(haystack, at)
 }
 
 // findIndicesDFAAtWithState searches using DFA starting at position, reusing provided state.
@@ -483,7 +483,7 @@ func (e *Engine) findIndicesAdaptive(haystack []byte) (int, int, bool) {
 		}
 
 		// Search from prefilter position - O(m) not O(n)
-		return e.pikevm.SearchAt(haystack, pos)
+		return e.pikevmSearchAt(haystack, pos)
 	}
 
 	// Try DFA without prefilter
@@ -495,7 +495,7 @@ func (e *Engine) findIndicesAdaptive(haystack []byte) (int, int, bool) {
 			e.putSearchState(state)
 			// Exact bounds from the NFA engine, searched from the beginning: a match
 			// can be longer than any fixed look-back from its end
-			return e.pikevm.SearchAt(haystack, 0)
+			return e.pikevmSearchAt(haystack, 0)
 		}
 		size, capacity, _, _, _ := e.dfa.CacheStats(state.dfaCache)
 		e.putSearchState(state)
@@ -526,7 +526,7 @@ func (e *Engine) findIndicesAdaptiveAt(haystack []byte, at int) (int, int, bool)
 		}
 
 		// Search from prefilter position - O(m) not O(n)
-		return e.pikevm.SearchAt(haystack, pos)
+		return e.pikevmSearchAt(haystack, pos)
 	}
 
 	// Try DFA without prefilter
@@ -538,7 +538,7 @@ func (e *Engine) findIndicesAdaptiveAt(haystack []byte, at int) (int, int, bool)
 			e.putSearchState(state)
 			// Exact bounds from the NFA engine, searched from at: a match can be
 			// longer than any fixed look-back from its end
-			return e.pikevm.SearchAt(haystack, at)
+			return e.pikevmSearchAt(haystack, at)
 		}
 		size, capacity, _, _, _ := e.dfa.CacheStats(state.dfaCache)
 		e.putSearchState(state)
@@ -751,7 +751,7 @@ func (e *Engine) findIndicesBoundedBacktracker(haystack []byte) (int, int, bool)
 	// step, not O(states × haystack) like BT visited table.
 	if e.nfa.IsAlwaysAnchored() && !e.boundedBacktracker.CanHandle(len(haystack)) {
 		atomic.AddUint64(&e.stats.NFASearches, 1)
-		return e.pikevm.SearchWithSlotTable(haystack, nfa.SearchModeFind)
+		return e.pikevmSearchWithSlotTableAt(haystack, 0, nfa.SearchModeFind)
 	}
 
 	atomic.AddUint64(&e.stats.NFASearches, 1)
@@ -761,7 +761,7 @@ func (e *Engine) findIndicesBoundedBacktracker(haystack []byte) (int, int, bool)
 		if e.dfa != nil && e.reverseDFA != nil && !e.longest {
 			return e.findIndicesBidirectionalDFALongest(haystack, 0)
 		}
-		return e.pikevm.SearchWithSlotTable(haystack, nfa.SearchModeFind)
+		return e.pikevmSearchWithSlotTableAt(haystack, 0, nfa.SearchModeFind)
 	}
 
 	state := e.getSearchState()
@@ -799,7 +799,7 @@ func (e *Engine) findIndicesBoundedBacktrackerAt(haystack []byte, at int) (int, 
 				if e.dfa != nil && e.reverseDFA != nil && !e.longest {
 					return e.findIndicesBidirectionalDFALongest(haystack, at)
 				}
-				return e.pikevm.SearchWithSlotTableAt(haystack, at, nfa.SearchModeFind)
+				return e.pikevmSearchWithSlotTableAt(haystack, at, nfa.SearchModeFind)
 			}
 			start, end, found := e.asciiBoundedBacktracker.Search(remaining)
 			if found {
